@@ -209,12 +209,14 @@ def ws_norm(b):
 
 
 def string_eq(pad, ddl_v, go_b):
-    """DDL string element (bytes, ('raw', bytes) or None) vs reader string."""
+    """DDL string element (bytes, ('raw', bytes) or None) vs reader string.  h5dump prints the whole field
+    (padding included, up to the first NUL for null-terminated strings); the reader's documented contract is the
+    string without its padding, i.e. exactly dec_string pad (Model/RefDecode.v) of the field."""
     if ddl_v is None:
         return go_b == b""
     if isinstance(ddl_v, tuple):
-        return ws_norm(canon_string(pad, ddl_v[1])) == ws_norm(canon_string(pad, go_b))
-    return canon_string(pad, ddl_v) == canon_string(pad, go_b)
+        return ws_norm(canon_string(pad, ddl_v[1])) == ws_norm(go_b)
+    return canon_string(pad, ddl_v) == go_b
 
 
 PAD_CODE = {"nullterm": 0, "nullpad": 1, "spacepad": 2}
@@ -511,11 +513,20 @@ def elements_of_blocks(blocks, space, ty):
             idx = DDL.subset_indices(space["dims"], b.subset)
         else:
             idx = list(range(len(vals)))
-            if n is not None and len(vals) != n:
+            as_string = ty.get("class") == "integer" and ty.get("size") == 1 and vals and all(v[0] == "str" for v in vals)
+            if n is not None and len(vals) != n and not as_string:
                 # a DATA block that is not the whole dataset and carries no SUBSET: not attributable
                 return None, "DATA has %d elements, dataspace %d" % (len(vals), n)
         if len(idx) != len(vals):
             return None, "subset selects %d elements, DATA has %d" % (len(idx), len(vals))
+        if ty.get("class") == "integer" and ty.get("size") == 1 and n is not None and len(vals) != n and vals and \
+                all(v[0] == "str" for v in vals) and not b.subset:
+            # h5dump -r prints 1-byte integer arrays as one string
+            bs = b"".join(v[1] for v in vals)
+            if len(bs) in (n, n - 1) and not any(v[2] for v in vals):
+                bs = bs + b"\0" * (n - len(bs))
+                vals = [("tok", str(x - 256 if (ty.get("signed") and x > 127) else x)) for x in bs]
+                idx = list(range(n))
         for i, v in zip(idx, vals):
             try:
                 out.append((i, DDL.interpret(v, ty), b.packed))
@@ -753,6 +764,8 @@ def compare_values(C, fname, src, where, ty, els, raw, gv, what, total=None):
             if first is None:
                 first = (idx, dv, gvv)
     C.stats["values_compared"] += ncmp
+    if ncmp:
+        C.stats["values_compared_%s_%s" % (what, cls)] += ncmp
     if nmis:
         C.d(fname, where, "value", "element %d: %r" % (first[0], first[1]), "%r (%d of %d compared elements differ)" % (first[2], nmis, ncmp), src)
 
@@ -819,7 +832,7 @@ def coq_tie(C, tier, rng):
     if len(strs) > cap_s:
         rng.shuffle(strs)
         strs = sorted(strs[:cap_s])
-    v = ["From HV Require Import Base.Prelude Model.RefDecode.\nOpen Scope Z_scope.\n"]
+    v = ["From HV Require Import Base.Prelude Model.RefDecode.\nOpen Scope string_scope.\n"]
     labels = []
     for k in range(0, len(ints), 2500):
         chunk = ints[k:k + 2500]
